@@ -100,6 +100,8 @@ class Built:
         #: 0 = plain conditions/captures; 1 = coroutine functions (suspending once); 2 = plain functions
         #: returning an awaitable
         self.async_conds = 0
+        #: None = async_conds applies to every level; otherwise only to the conditions/captures declared at this level
+        self.async_level = None  # type: Optional[int]
         #: who asks for OLD when snapshots are in effect: 0 = postconditions and their error factories (mode
         #: factory_kw), 1 = only the error factories, 2 = nobody
         self.post_old = 0
@@ -181,7 +183,7 @@ def _cond(built: Built, role: str, lvl: int, i: int, params: Tuple[str, ...], is
 
     name = "{}_{}_{}".format(role, lvl, i)
     built.names[name] = label
-    return _maybe_async(built, params, impl, name, role != "inv")
+    return _maybe_async(built, params, impl, name, role != "inv" and (built.async_level is None or built.async_level == lvl))
 
 
 def _maybe_async(built: "Built", params: Tuple[str, ...], impl: Callable[[Dict[str, Any]], Any], name: str,
@@ -208,7 +210,7 @@ def _capture(built: Built, lvl: int, i: int, params: Tuple[str, ...]) -> Callabl
             return rt.capture(lvl, i, kw)
         return ("captured", lvl, i)
 
-    return _maybe_async(built, params, impl, "cap_{}_{}".format(lvl, i), True)
+    return _maybe_async(built, params, impl, "cap_{}_{}".format(lvl, i), built.async_level is None or built.async_level == lvl)
 
 
 def _body(built: Built, params: Tuple[str, ...], is_async: bool, name: str, kind: str) -> Callable[..., Any]:
@@ -303,12 +305,14 @@ _CHECK_ON = {
 
 
 def build(prog: Prog, rt: Optional[RT], use_dbc: bool = True, root_init: bool = True,
-          error_mode: Optional[str] = None, async_conds: int = 0, post_old: int = 0) -> Built:
+          error_mode: Optional[str] = None, async_conds: int = 0, post_old: int = 0,
+          async_level: Optional[int] = None) -> Built:
     """Create the real program.  May raise what icontract raises at definition time."""
     assert prog.valid(), prog
     built = Built(prog, rt, error_mode or (rt.error_mode if rt is not None else "factory"))
     built.async_conds = async_conds
     built.post_old = post_old
+    built.async_level = async_level
     rt = built  # the helpers below take the Built (static part); run-time state is built.rt
     kind = prog.kind
     if kind == "func":
@@ -367,18 +371,18 @@ _BUILT_CACHE = {}  # type: Dict[Tuple[Any, ...], Any]
 
 
 def get_built(prog: Prog, error_mode: str, use_dbc: bool = True, root_init: bool = True,
-              async_conds: int = 0, post_old: int = 0) -> Any:
+              async_conds: int = 0, post_old: int = 0, async_level: Optional[int] = None) -> Any:
     """Build (once per process, natively) the program for concrete selectors; returns Built or the
     exception instance that icontract raised at definition time."""
     from vfw.hlib import untraced
 
-    key = (prog, error_mode, use_dbc, root_init, async_conds, post_old)
+    key = (prog, error_mode, use_dbc, root_init, async_conds, post_old, async_level)
     with untraced():
         hit = _BUILT_CACHE.get(key)
         if hit is None:
             try:
                 hit = build(prog, None, use_dbc=use_dbc, root_init=root_init, error_mode=error_mode,
-                            async_conds=async_conds, post_old=post_old)
+                            async_conds=async_conds, post_old=post_old, async_level=async_level)
             except (TypeError, ValueError) as err:
                 hit = err
             _BUILT_CACHE[key] = hit
